@@ -45,18 +45,23 @@ Definition notfloat : resp := err "ERR value is not a valid float".
 Definition cmd_incrbyfloat (now : Z) (d : db) (args : list bytes) : res :=
   match args with
   | [k; inc] =>
-    match parse_score inc with
-    | None => (d, notfloat)
-    | Some delta =>
-      match lookup now d k with
-      | None => let v := dec_print delta in (put d k (VStr v) None, RBulk v)
-      | Some e =>
-        match str_of e with
-        | None => (d, wrongtype)
-        | Some old =>
-          match parse_score old with
+    (* Redis' order: the type of the key, then the stored text, then the increment *)
+    match lookup now d k with
+    | None =>
+      match parse_score inc with
+      | None => (d, notfloat)
+      | Some delta => let v := dec_print delta in (put d k (VStr v) None, RBulk v)
+      end
+    | Some e =>
+      match str_of e with
+      | None => (d, wrongtype)
+      | Some old =>
+        match parse_score old with
+        | None => (d, notfloat)
+        | Some cur =>
+          match parse_score inc with
           | None => (d, notfloat)
-          | Some cur => let v := dec_print (dec_add cur delta) in (put d k (VStr v) (e_exp e), RBulk v)
+          | Some delta => let v := dec_print (dec_add cur delta) in (put d k (VStr v) (e_exp e), RBulk v)
           end
         end
       end
